@@ -376,3 +376,62 @@ Proof.
   digit_bounds Y M D h m s HY HM' HD' Hh' Hm' Hs'.
   rewrite wv_render_full by discriminate. apply enc16_Z; try assumption; reflexivity.
 Qed.
+
+(* ------------------------------------------------------------------ *)
+(* zone octets and letters that are no zone designator                  *)
+
+(* what the decoder prints for the zone octet *)
+Definition zone_suffix (z : N) : list N :=
+  if z =? 0 then [90] else if (z <? 65) || (90 <? z) || (z =? 74) then [] else [z].
+
+(* the decoder on the six specification octets, whatever the zone octet is *)
+Lemma dec_wv_datetime_any_zone Y M D h m s z : wv_fields_ok Y M D h m s ->
+  dec_wv_datetime (wv_octets Y M D h m s z) = TOk (wv_render (negb (s =? 0)) Y M D h m s 0 ++ zone_suffix z).
+Proof.
+  intros (HY & HM & HD & Hh & Hm & Hs).
+  unfold dec_wv_datetime, wv_octets.
+  rewrite unpack_year, unpack_month, unpack_day, unpack_hour, unpack_minute, unpack_second by lia.
+  rewrite sprintf_04u by lia. rewrite !sprintf_02u by lia.
+  unfold wv_render, zone_suffix. change (0 =? 0) with true. cbv iota.
+  destruct (z =? 0); [|destruct ((z <? 65) || (90 <? z) || (z =? 74))];
+    destruct (s =? 0) eqn:Hs0; cbn [negb]; rewrite <- ?app_assoc; cbn [app]; rewrite ?app_nil_r; reflexivity.
+Qed.
+
+(* 'J' (and any octet outside 'A'..'Z') is never printed as a zone designator *)
+Lemma dec_wv_datetime_no_zone_J Y M D h m s : wv_fields_ok Y M D h m s ->
+  dec_wv_datetime (wv_octets Y M D h m s 74) = TOk (wv_render (negb (s =? 0)) Y M D h m s 0).
+Proof.
+  intros Hf. rewrite dec_wv_datetime_any_zone by exact Hf. unfold zone_suffix.
+  change (74 =? 0) with false. change ((74 <? 65) || (90 <? 74) || (74 =? 74)) with true. cbv iota.
+  rewrite app_nil_r. reflexivity.
+Qed.
+
+(* the encoder refuses zone 'J' *)
+Lemma enc16_J a1 a2 a3 a4 a5 a6 a7 a8 a9 a10 a11 a12 a13 a14 :
+  a1 < 10 -> a2 < 10 -> a3 < 10 -> a4 < 10 -> a5 < 10 -> a6 < 10 -> a7 < 10 -> a8 < 10 -> a9 < 10 -> a10 < 10 ->
+  a11 < 10 -> a12 < 10 -> a13 < 10 -> a14 < 10 ->
+  enc_wv_datetime (wv_text16 a1 a2 a3 a4 a5 a6 a7 a8 a9 a10 a11 a12 a13 a14 74) = EErr T_WV_DATETIME_FORMAT.
+Proof.
+  intros H1 H2 H3 H4 H5 H6 H7 H8 H9 H10 H11 H12 H13 H14.
+  assert (Hsep : forall c, (c <? 48) || (c =? 58) = true ->
+                           mem c (wv_text16 a1 a2 a3 a4 a5 a6 a7 a8 a9 a10 a11 a12 a13 a14 74) = false).
+  { intros c Hc. apply mem_absent. unfold wv_text16. repeat (constructor; [lia|]). constructor. }
+  unfold enc_wv_datetime. rewrite !Hsep by reflexivity.
+  change (length (wv_text16 a1 a2 a3 a4 a5 a6 a7 a8 a9 a10 a11 a12 a13 a14 74)) with 16%nat. cbn [Nat.sub orb].
+  change (nth 15 (wv_text16 a1 a2 a3 a4 a5 a6 a7 a8 a9 a10 a11 a12 a13 a14 74) 0) with 74.
+  change (74 =? 90) with false. cbv iota.
+  unfold enc_wv_datetime_opaque, wv_text16.
+  cbn [length Nat.eqb orb negb andb nth app].
+  replace (84 =? 84) with true by reflexivity. cbn [negb].
+  change ((74 <? 65) || (74 =? 74) || (90 <? 74)) with true. reflexivity.
+Qed.
+
+Lemma wv_datetime_zone_J_refused Y M D h m s : Y <= 9999 -> M <= 99 -> D <= 99 -> h <= 99 -> m <= 99 -> s <= 99 ->
+  enc_wv_datetime (wv_render true Y M D h m s 74) = EErr T_WV_DATETIME_FORMAT.
+Proof.
+  intros HY HM HD Hh Hm Hs.
+  assert (HM' : 0 <= M <= 99) by (clear - HM; lia). assert (HD' : 0 <= D <= 99) by (clear - HD; lia).
+  assert (Hh' : h < 100) by (clear - Hh; lia). assert (Hm' : m < 100) by (clear - Hm; lia). assert (Hs' : s < 100) by (clear - Hs; lia).
+  digit_bounds Y M D h m s HY HM' HD' Hh' Hm' Hs'.
+  rewrite wv_render_full by discriminate. apply enc16_J; assumption.
+Qed.
